@@ -517,3 +517,7 @@ def run(ctx, rep):
     style_options(rep, lib)
     # header-less csv: error before any write (shared with C15)
     PR.text_rows(rep, lib)
+    # ... which only works if every stage hands start() on at once (shared with C03)
+    from rules import pipeline_rules as _P
+    _P.start_forward(rep, lib)
+    _P.go_protocol(rep, lib)
